@@ -403,21 +403,37 @@ def run(ctx):
         'approx.project_L2 with geometry exists for dim 2, 3 and scalar data only (library assertion); uses the shipped '
         'mass assemblers, no on-demand compilation']
     nvar = 12 if ctx.thorough else 2
-    runs = []
-    for d in (1, 2, 3):
-        runs.append(('d%d' % d, dict(Dims=frozenset({d}), NVar=nvar, Salt=1 + ctx.seed % 200, Big=bool(ctx.thorough))))
+    salt = 1 + ctx.seed % 200
 
-    def one(item):
-        name, consts = item
+    def tlc_cases(name, d, variants, must_pass):
+        consts = dict(Dims=frozenset({d}), Vars=frozenset(variants), Salt=salt, Big=bool(ctx.thorough))
         cfg = write_cfg(ctx.scratch / ('approx_%s.cfg' % name), consts, invariants=INVS)
-        res = ctx.tlc('Approx', cfg, workers=4, timeout=3600)
-        cases = res.recs('CASE')
+        res = ctx.tlc('Approx', cfg, workers=4, timeout=1500, must_pass=False)
+        if not res.ok and must_pass and 'Overflow' not in (res.stdout or ''):
+            raise MachineryError('Approx %s: TLC did not complete (violated=%s error=%s)\n%s'
+                                 % (name, res.violated, res.error, res.stdout[-2000:]))
+        return res
+
+    def one(d):
+        """all cases of dimension d; a 32-bit overflow inside one case (TLC aborts the whole run) is contained by
+        re-running variant by variant and dropping the offending variants as skipped"""
+        res = tlc_cases('d%d' % d, d, range(1, nvar + 1), True)
+        if res.ok:
+            cases = res.recs('CASE')
+        else:
+            cases = []
+            for v in range(1, nvar + 1):
+                r = tlc_cases('d%d_v%d' % (d, v), d, [v], True)
+                if r.ok:
+                    cases += r.recs('CASE')
+                else:
+                    ctx.skip('Approx dim=%d variant=%d salt=%d: integer overflow inside TLC (32 bit); variant dropped' % (d, v, salt))
         if not cases:
-            raise MachineryError('Approx %s emitted no case' % name)
+            raise MachineryError('Approx d=%d emitted no case' % d)
         return cases
 
     with ThreadPoolExecutor(3) as ex:
-        allcases = [c for cs in ex.map(one, runs) for c in cs]
+        allcases = [c for cs in ex.map(one, (1, 2, 3)) for c in cs]
 
     found = {}
     calls = 0
